@@ -295,6 +295,7 @@ func H_ST_lang_iface() {
 }
 
 func H_ST_lang_conc() {
+	verifnd.GoroutineBaseline()
 	// goroutines, channels, WaitGroup, Mutex, Once, select/default, close + range
 	var wg sync.WaitGroup
 	var mu sync.Mutex
@@ -344,9 +345,66 @@ func H_ST_lang_conc() {
 		sel += "empty"
 	}
 	ev("once %d select %s", k, sel)
-	// (goroutines run to completion or to their first blocking point at the spawn site; a
-	// rendez-vous on an unbuffered channel with the spawning goroutine is outside the model
-	// and fails closed as an engine error)
+	// rendez-vous on unbuffered channels (the goroutine parks at its send, the receive wakes it)
+	res := make(chan string)
+	go func() { res <- "done" }()
+	ev("unbuffered %s", <-res)
+	ping, pong := make(chan int), make(chan int)
+	go func() {
+		for v := range ping {
+			pong <- v * 2
+		}
+		close(pong)
+	}()
+	acc := 0
+	for i := 1; i <= 3; i++ {
+		ping <- i
+		acc += <-pong
+	}
+	close(ping)
+	_, open2 := <-pong
+	ev("pingpong %d %v", acc, open2)
+	// worker pool over a small buffered channel: producers block when it is full
+	jobs := make(chan int, 1)
+	outs := make(chan int, 8)
+	var wg2 sync.WaitGroup
+	wg2.Add(1)
+	go func() {
+		defer wg2.Done()
+		for j := range jobs {
+			outs <- j * j
+		}
+	}()
+	for j := 1; j <= 4; j++ {
+		jobs <- j
+	}
+	close(jobs)
+	wg2.Wait()
+	close(outs)
+	sq := 0
+	for v := range outs {
+		sq += v
+	}
+	ev("pool %d parked=%d", sq, verifnd.ParkedGoroutines())
+	// a helper goroutine waiting in a select, stopped through an unbuffered quit channel
+	quit := make(chan bool)
+	tick := make(chan int)
+	work := 0
+	go func() {
+		for {
+			work++
+			select {
+			case <-quit:
+				return
+			case n := <-tick:
+				work += n
+			}
+		}
+	}()
+	tick <- 10
+	tick <- 20
+	quit <- true
+	ev("select-park work=%d parked=%d", work, verifnd.ParkedGoroutines())
 }
 
 func H_ST_lang_numeric() {
@@ -644,6 +702,49 @@ func H_ST_twin_loop() {
 	}
 	spin(step)
 	verifnd.LoopLimit("verifself.spin", 0)
+}
+
+// collect returns early on the first error: with an unbuffered channel the remaining senders block for good.
+func collect(n int, failMask int, buffered bool) error {
+	size := 0
+	if buffered {
+		size = n
+	}
+	results := make(chan error, size)
+	for k := 0; k < n; k++ {
+		go func() {
+			if failMask&(1<<uint(k)) != 0 {
+				results <- errors.New("failed")
+				return
+			}
+			results <- nil
+		}()
+	}
+	for k := 0; k < n; k++ {
+		if err := <-results; err != nil {
+			return err
+		}
+	}
+	return nil
+}
+
+func H_ST_hold_noleak() {
+	verifnd.GoroutineBaseline()
+	_ = collect(3, verifnd.Choose("fail.mask", 8), true)
+	verifnd.Assert(verifnd.ParkedGoroutines() == 0, "hold.no-leak-buffered")
+	verifnd.Reach("ST.hold.noleak")
+}
+
+func H_ST_twin_leak() {
+	// (natively the order in which the senders arrive is up to the Go scheduler, the engine explores
+	// one schedule: the twin fails in every schedule — all three senders report an error)
+	verifnd.GoroutineBaseline()
+	mask := 0
+	if verifnd.Choose("all.fail", 2) == 1 {
+		mask = 7
+	}
+	_ = collect(3, mask, false)
+	verifnd.Assert(verifnd.ParkedGoroutines() == 0, "twin.goroutine-leak")
 }
 
 func H_ST_twin_clock() {
